@@ -103,7 +103,6 @@ func vpRefLEB(v uint64) (out [10]byte, n int) {
 	}
 }
 
-
 // vpBE is the reference big-endian layout of the low `n` bytes of v.
 func vpBE(v uint64, n int) []byte {
 	out := make([]byte, n)
@@ -171,11 +170,9 @@ func vpVarIntRef(v int32) []byte {
 	return append([]byte{}, ref[:m]...)
 }
 
-
 func vpEqBytes(a, b []byte, label string) {
 	vp.Assert(len(a) == len(b), label)
 	for i := range a {
 		vp.Assert(a[i] == b[i], label)
 	}
 }
-
